@@ -566,6 +566,20 @@ main (int argc, char **argv)
   std::snprintf (params, sizeof params, "seed=%llu max_success=%u max_size=%u max_discard_ratio=50 noshrink=0", seed, cases, max_len);
   setenv ("RC_PARAMS", params, 1);
 
+  if (! emit_path.empty ())
+  {
+    std::ofstream ef (emit_path.c_str ());
+    unsigned emitted = 0;
+    rc::check ("emit corpus", [&] () {
+      const std::vector<Op> ops = *gen_ops;
+      if (ops.size () < 3) return;
+      Program p; p.cfg = cfg->name; p.ops = ops; p.property = ps->name;
+      ef << to_text (p) << "\n";
+      ++emitted;
+    });
+    std::printf ("emitted %u programs\n", emitted);
+    return 0;
+  }
   bool ok;
   if (! ps->fault)
     ok = rc::check (std::string (ps->name) + " on " + cfg->name, [&] () {
